@@ -129,7 +129,9 @@ def cond_text(c):
     k = c[0]
     if k == "cmp":
         _, op, col, lit = c
-        if isinstance(lit, int):
+        if isinstance(lit, dict):
+            ls = lit["date"]                 # a date literal, e.g. 2020-01-15
+        elif isinstance(lit, int):
             ls = str(lit)
         else:
             ls = '"%s"' % lit
@@ -142,7 +144,8 @@ def cond_text(c):
 
 
 class _Tsql(Exception):
-    pass
+    def __init__(self, reason):
+        self.reason = reason
 
 
 class _Raise(Exception):
@@ -160,6 +163,11 @@ def n_value(dt, raw):
             raise _Raise("ValueError")
     if dt == ":string":
         return raw
+    if dt == ":float":
+        try:
+            return float(raw)
+        except ValueError:
+            raise _Raise("ValueError")
     with warnings.catch_warnings():
         warnings.simplefilter("ignore")
         return tsdb.cast(dt, raw)       # dates/floats: C08 territory
@@ -187,7 +195,7 @@ def n_leaf(op, value, lit):
     raise ValueError(op)
 
 
-def naive_select(schema, data, T, cond, info=None):
+def naive_select(schema, data, T, cond, info=None, as_coded=False):
     """what `* from T where cond` selects, by nested loops.
 
     schema: list of relations; data: name -> rows (lists of str/None) or None when the relation has no
@@ -205,7 +213,7 @@ def naive_select(schema, data, T, cond, info=None):
             return rel, c
         cands = [n for n in order if col in names[n]]
         if not cands:
-            raise _Tsql()
+            raise _Tsql("undefined column")
         return (T if T in cands else cands[0]), col
 
     leaves = []
@@ -215,9 +223,21 @@ def naive_select(schema, data, T, cond, info=None):
             _, op, col, lit = c
             rel, cn = resolve(col)
             f = fields[rel][names[rel].index(cn)]
-            want = {":string": str, ":integer": int}.get(f["dt"])
-            if want is None or not isinstance(lit, want) or isinstance(lit, bool):
-                raise _Tsql()
+            # documented typing: integer literals for :integer and :float columns, strings for :string, dates for :date
+            dt = f["dt"]
+            if isinstance(lit, dict):
+                with warnings.catch_warnings():
+                    warnings.simplefilter("ignore")
+                    lit = tsdb.cast(":date", lit["date"])
+                ok = dt == ":date" and lit is not None
+            elif isinstance(lit, bool):
+                ok = False
+            elif isinstance(lit, int):
+                ok = dt in (":integer", ":float")
+            else:
+                ok = isinstance(lit, str) and dt == ":string"
+            if not ok:
+                raise _Tsql("type mismatch")
             leaves.append(rel)
             return ("cmp", op, rel, names[rel].index(cn), f["dt"], lit)
         if c[0] == "not":
@@ -254,7 +274,7 @@ def naive_select(schema, data, T, cond, info=None):
                     P.append(n)
                     break
             else:
-                raise _Tsql()
+                raise _Tsql("no linking relation")
         J = R + P
         reached = [T]
         changed = True
@@ -265,7 +285,7 @@ def naive_select(schema, data, T, cond, info=None):
                     reached.append(n)
                     changed = True
         if len(reached) != len(J):
-            raise _Tsql()
+            raise _Tsql("no key path")
         for n in J:
             if data.get(n) is None:
                 raise _Raise("TSDBError")
@@ -310,8 +330,8 @@ def naive_select(schema, data, T, cond, info=None):
         for r in range(len(data[T])):
             counts.append(count(1, {T: r}))
         return ("counts", counts)
-    except _Tsql:
-        return ("tsqlError",)
+    except _Tsql as e:
+        return ("tsqlError", e.reason)
     except _Raise as e:
         return ("raise", e.tag)
 
@@ -325,10 +345,11 @@ def F(name, dt, *flags):
 BASE = {
     "item": [F("i-id", ":integer", ":key"), F("i-input", ":string"), F("i-wf", ":integer"),
              F("i-length", ":integer"), F("i-date", ":date"), F("i-comment", ":string"),
-             F("i-difficulty", ":integer")],
+             F("i-difficulty", ":integer"), F("i-score", ":float")],
     "parse": [F("parse-id", ":integer", ":key"), F("run-id", ":integer", ":key"), F("i-id", ":integer", ":key"),
-              F("readings", ":integer"), F("p-note", ":string")],
-    "result": [F("parse-id", ":integer", ":key"), F("result-id", ":integer", ":key"), F("mrs", ":string")],
+              F("readings", ":integer"), F("p-note", ":string"), F("tcpu", ":float")],
+    "result": [F("parse-id", ":integer", ":key"), F("result-id", ":integer", ":key"), F("mrs", ":string"),
+               F("r-score", ":float")],
     "run": [F("run-id", ":integer", ":key"), F("r-comment", ":string")],
     "tree": [F("result-id", ":integer", ":key"), F("t-label", ":string")],
     "edge": [F("e-id", ":integer", ":key"), F("parse-id", ":integer", ":key"), F("e-label", ":string")],
@@ -394,6 +415,8 @@ def gen_cell(rng, f, keydom):
         return None
     if f["dt"] == ":integer":
         return str(rng.choice([0, 1, 2, 3, -1, 10, 7]))
+    if f["dt"] == ":float":
+        return rng.choice(["2", "2.0", "2.5", "0.5", "-1", "10", "1e1", "3", "1.999"])
     if f["dt"] == ":date":
         return rng.choice(["1-jan-2020", "15-feb-2021 10:20:30", "2019-12-31", "31-feb-2020", "1-jan-2020",
                            "2019-12-31", "notadate"])
@@ -495,7 +518,8 @@ def gen_cond(rng, schema, depth=0):
         if k == "not":
             return ["not", gen_cond(rng, schema, depth + 1)]
         return [k, [gen_cond(rng, schema, depth + 1) for _ in range(rng.choice([2, 2, 3]))]]
-    cols = [(rel["name"], f) for rel in schema for f in rel["fields"] if f["dt"] in (":integer", ":string")]
+    cols = [(rel["name"], f) for rel in schema for f in rel["fields"]
+            if f["dt"] in (":integer", ":string", ":float", ":date")]
     if not cols or rng.random() < 0.04:
         return ["cmp", "==", "zzz", 1]
     # bias to item/parse/result columns
@@ -507,9 +531,12 @@ def gen_cond(rng, schema, depth=0):
         col = rel + "." + col
     dt = f["dt"]
     if rng.random() < 0.05:
-        dt = ":string" if dt == ":integer" else ":integer"      # type mismatch -> TSQLError -> all rows
-    if dt == ":integer":
+        dt = ":string" if dt != ":string" else ":integer"       # type mismatch -> TSQLError -> all rows
+    if dt in (":integer", ":float"):
         return ["cmp", rng.choice(["==", "=", "!=", "<", "<=", ">", ">="]), col, rng.choice([0, 1, 2, 3, -1, 10])]
+    if dt == ":date":
+        return ["cmp", rng.choice(["==", "!=", "<", "<=", ">", ">="]), col,
+                {"date": rng.choice(["2020-01-01", "2019-12-31", "2021-02-15", "1-jan-2020"])}]
     op = rng.choice(["==", "!=", "~", "!~", "~"])
     if op in ("~", "!~"):
         return ["cmp", op, col, rng.choice(PATTERNS)]
@@ -722,6 +749,47 @@ def enumerated_cases():
                     yield {"kind": "db", "src": src2, "dst": None, "schema": None,
                            "where": None if cond is None else {"cond": cond}, "full": full, "gzip": gz,
                            "skeleton": skeleton}
+    # :float and :date columns in item/parse/result; filters with integer / date literals on empty, integral ("2",
+    # "2.0") and fractional values (a type-correct filter must never end in the all-rows fallback)
+    sch3 = [{"name": "item", "fields": [F("i-id", ":integer", ":key"), F("i-input", ":string"), F("i-date", ":date"),
+                                        F("i-score", ":float")]},
+            {"name": "parse", "fields": [F("parse-id", ":integer", ":key"), F("i-id", ":integer", ":key"),
+                                         F("readings", ":integer"), F("tcpu", ":float")]},
+            {"name": "result", "fields": [F("parse-id", ":integer", ":key"), F("result-id", ":integer"),
+                                          F("r-score", ":float")]}]
+    src3 = {"schema": sch3, "files": [
+        {"name": "item", "tx": gen_file([["1", "a", "1-jan-2020", "2"], ["2", "b", None, None],
+                                         ["3", "c", "15-feb-2021 10:20:30", "2.5"], ["4", "d", "2019-12-31", "2.0"]], 1),
+         "gz": None},
+        {"name": "parse", "tx": gen_file([["10", "1", "1", "2"], ["20", "2", "0", None], ["30", "3", "2", "2.5"],
+                                          ["40", "4", "1", "2.0"], ["11", "1", "3", "1.999"]], 1), "gz": None},
+        {"name": "result", "tx": gen_file([["10", "0", "0.5"], ["30", "0", "3"], ["40", "0", None], ["40", "1", "2"]], 1),
+         "gz": None}]}
+    for col in ("tcpu", "i-score", "r-score", "parse.tcpu"):
+        for op in ("=", "==", "!=", "<", "<=", ">", ">="):
+            yield {"kind": "db", "src": src3, "dst": None, "schema": None, "where": {"cond": ["cmp", op, col, 2]},
+                   "full": True, "gzip": False, "skeleton": False}
+    for op in ("==", "!=", "<", "<=", ">", ">="):
+        for d in ("2020-01-01", "1-jan-2020", "2021-02-15"):
+            yield {"kind": "db", "src": src3, "dst": None, "schema": None,
+                   "where": {"cond": ["cmp", op, "i-date", {"date": d}]}, "full": True, "gzip": False,
+                   "skeleton": False}
+    yield {"kind": "db", "src": src3, "dst": None, "schema": None, "full": False, "gzip": False, "skeleton": False,
+           "where": {"cond": ["and", [["cmp", ">=", "tcpu", 2], ["cmp", "<", "r-score", 3]]]}}
+    yield {"kind": "db", "src": src3, "dst": None, "schema": None, "full": True, "gzip": True, "skeleton": True,
+           "where": {"cond": ["cmp", "==", "tcpu", "two"]}}          # mistyped: documented fallback
+    # single-column relations with empty-valued rows (blank-line records) under full copy and refresh
+    sch4 = [{"name": "item", "fields": [F("i-input", ":string")]}, {"name": "fold", "fields": [F("f-note", ":string")]},
+            {"name": "set", "fields": [F("s-id", ":integer", ":key")]}]
+    src4 = {"schema": sch4, "files": [
+        {"name": "item", "tx": gen_file([[None], ["a"], [None], [None]], 1), "gz": None},
+        {"name": "fold", "tx": None, "gz": gen_file([["x"], [None]], 1)},
+        {"name": "set", "tx": gen_file([[None]], 1), "gz": None}]}
+    for gz in (False, True):
+        for skeleton in (False, True):
+            yield {"kind": "db", "src": src4, "dst": None, "schema": None, "where": None, "full": True, "gzip": gz,
+                   "skeleton": skeleton}
+            yield {"kind": "refresh", "dst": src4, "schema": None, "gzip": gz, "skeleton": skeleton}
     sch_l = [{"name": "item", "fields": item}, {"name": "parse", "fields": parse}]
     for lines in ([], ["the dog barks"], ["*dog the barks", "it  rains\t", "", "*"],
                   ["**two stars", "*** three", "* *", "**"]):
@@ -761,7 +829,7 @@ def plant(path, d):
 
 
 ERRS = ("TSDBSchemaError", "TSDBError", "CommandError", "TypeError", "KeyError", "StopIteration",
-        "TSQLSyntaxError", "IndexError", "ValueError")
+        "TSQLSyntaxError", "IndexError", "ValueError", "AttributeError")
 
 
 def watch_names(case):
@@ -855,7 +923,7 @@ def filt_params(case):
             out[t] = {"raise": "KeyError" if "nosuch" in where["text"] else "TSQLSyntaxError"}
             continue
         info = {}
-        v = naive_select(src["schema"], data, t, where["cond"], info)
+        v = naive_select(src["schema"], data, t, where["cond"], info, as_coded=True)
         if "rels" not in info:
             out[t] = "unresolved" if v[0] == "tsqlError" else {"raise": v[1]}
         elif v[0] == "counts":
@@ -867,6 +935,15 @@ def filt_params(case):
         else:
             out[t] = {"rels": info["rels"], "counts": [], "late": v[1]}
     return out
+
+
+def cond_composable(c):
+    """date literals are not shipped to the composed model"""
+    if c[0] == "cmp":
+        return not isinstance(c[3], dict)
+    if c[0] == "not":
+        return cond_composable(c[1])
+    return all(cond_composable(x) for x in c[1])
 
 
 def cond_json(c):
@@ -923,8 +1000,11 @@ class C12(Check):
         "`select` on the source profile, files/records are C09's and C08's; only `re.search` is a parameter (a "
         "table of pattern x stored string, as in C11). The harness's nested-loop evaluator is the oracle only; it is "
         "a model parameter (resolution, relations of the filter, per-row counts) solely in the fallback for cases "
-        "outside the islands' models (malformed filter text, a date spelling C08 does not model): see "
-        "coverage.model_paths in the evidence",
+        "outside the islands' models — malformed filter text; a well-typed comparison on a :float column or a date "
+        "literal (C11 answers `unmodelled` / not shipped); a :date cell in a KEY or FILTER column whose text C08's "
+        "parseDate does not model (free text like 'notadate'; other columns are never cast, as in the code) — see "
+        "coverage.model_paths in the evidence; text input is answered by the round-1 model (nothing is a parameter "
+        "there, but it is not composed with C09)",
         "schemas are key-consistent (a column that is a key in one relation is a key wherever it occurs); relation "
         "and column names are TSQL identifiers without keyword prefixes and without '.'",
         "source files are written with well-formed escapes; integer key/condition columns hold int() spellings",
@@ -1098,7 +1178,27 @@ class C12(Check):
                 res = "TSDBError" if nm == "TSDBSchemaError" else nm
             finally:
                 sys.stdin = old_stdin
-            return observe(dst, watch_names(case), res)
+            out = observe(dst, watch_names(case), res)
+            if case["kind"] == "db" and kw.get("where") and case["src"].get("schema") is not None:
+                # does the real query of mkprof answer, or does it take the TSQLError fallback?  (observation
+                # for the oracle only; not part of the model comparison)
+                sel = {}
+                target = target_of(case)
+                files = dir_files(case["src"])
+                for rel in target:
+                    t = rel["name"]
+                    if t not in to_copy(case, target) or t not in dir_schema(case["src"]) or \
+                            t not in files or n_current(files[t]) is None:
+                        continue
+                    try:
+                        with warnings.catch_warnings():
+                            warnings.simplefilter("ignore")
+                            list(tsql.select("* from %s where %s" % (t, kw["where"]), tsdb.Database(src)))
+                        sel[t] = "ok"
+                    except Exception as e:
+                        sel[t] = type(e).__name__
+                out["select"] = sel
+            return out
         finally:
             shutil.rmtree(work, ignore_errors=True)
 
@@ -1109,8 +1209,9 @@ class C12(Check):
         # the composed model (C11 select + C09 files) answers db and refresh cases; the `sel` parameter below
         # is only used by the driver's fallback when a case is outside what C08/C09/C11 model
         where = case.get("where")
-        req["composed"] = case["kind"] in ("db", "refresh") and not (where and "text" in where)
-        if case["kind"] == "db" and where and "cond" in where:
+        req["composed"] = case["kind"] in ("db", "refresh") and not (where and "text" in where) and not (
+            where and "cond" in where and not cond_composable(where["cond"]))
+        if case["kind"] == "db" and where and "cond" in where and req["composed"]:
             req["cond"] = cond_json(where["cond"])
             req["rx"] = rx_table(case)
         if case["kind"] == "db":
@@ -1128,10 +1229,19 @@ class C12(Check):
             req["lines"] = case["lines"]
         return req
 
+    def model_expected(self, case, impl_res):
+        if isinstance(impl_res, dict) and "select" in impl_res:
+            impl_res = {k: v for k, v in impl_res.items() if k != "select"}
+        return impl_res
+
     def model_compare(self, case, expected, answer):
         if isinstance(answer, dict):
             answer = dict(answer)
             path = answer.pop("path", "param")
+            if case["kind"] == "lines":
+                path = "round-1 model (no parameter; not composed with C09)"
+            elif path == "param":
+                path = "round-1 model with the evaluator's answers as parameter"
             key = "model path:%s:%s" % (case["kind"], path)
             self.paths[key] = self.paths.get(key, 0) + 1
             if case["kind"] == "db" and case.get("where") and path == "composed":
@@ -1199,6 +1309,19 @@ class C12(Check):
         bad_filter = bool(where) and ("text" in where or any(v[0] == "raise" for v in sel.values()))
         if ragged or bad_filter:
             return
+        # the all-rows fallback is documented for a filter that cannot be joined with the relation; it may be taken
+        # only when the documented semantics has no answer (undefined column, literal of the wrong type for the
+        # column, no key path / linking relation) — never for a valid, type-correct, joinable filter
+        for t, v in (sel or {}).items():
+            real = (res.get("select") or {}).get(t)
+            if real is None:
+                continue
+            if real == "TSQLError" and v[0] != "tsqlError":
+                fail("the all-rows fallback is taken for a valid, type-correct filter that can be joined by key links",
+                     repr((t, cond_text(where["cond"]), "documented:", v[0])))
+            elif real == "ok" and v[0] == "tsqlError":
+                fail("a filter that has no answer (%s) is evaluated instead of falling back" % v[1],
+                     repr((t, cond_text(where["cond"]))))
         if res["res"] != "ok":
             fail("mkprof fails on a well-formed source profile", repr(res["res"]))
             return
@@ -1408,7 +1531,16 @@ class C12(Check):
             else:
                 sp = select_params(case)
                 for t, v in sp.items():
-                    inc("db:select " + v[0] + (":" + v[1] if v[0] == "raise" else ""))
+                    inc("db:select " + v[0] + (":" + v[1] if v[0] in ("raise", "tsqlError") else ""))
+                    real = ((res or {}).get("select") or {}).get(t)
+                    if real == "TSQLError":
+                        inc("db:real code took the fallback; documented reason: " + (v[1] if v[0] == "tsqlError" else "NONE"))
+                dts = {f["dt"] for r_ in (case["src"]["schema"] or []) for f in r_["fields"]}
+                txt = cond_text(w["cond"])
+                if any(x in txt for x in ("tcpu", "r-score", "i-score")):
+                    inc("db:filter on a :float column")
+                if "i-date" in txt:
+                    inc("db:filter on a :date column")
                     if v[0] == "counts":
                         if any(x > 1 for x in v[1]):
                             inc("db:select one-to-many (count>1)")
